@@ -7,7 +7,7 @@ TECH = "machine-checked proof in Coq 8.16 over an executable model, tied to the 
 CLAIMS = {
  "C19": dict(cat="proof", text="Coq theorems over the path model (text round trip for well-formed components, Eq implies equal hash input; tree-level resolution when present in Props/C19.v) re-checked against a switch regenerated from path.rs; differential runs model vs implementation; content-audit hook over every corpus object",
              note="model of path.rs is hand-written; tie = regenerated cache switch + correspondence on generated path strings; tree-level resolution also audited on the implementation"),
- "C09": dict(cat="proof", text="16 Coq theorems: each rejected host call (cannot-continue, out-of-range choice, undeclared variable, unknown/blank function, bad argument, unknown path, absent flow/observer, double bind, async guard) returns an error and the world is literally unchanged, for the API model run with switches regenerated from the sources; engine model tied by transcript correspondence; lock-step oracle with every kind of invalid call injected at every position of explored histories, comparing later behaviour and the final save",
+ "C09": dict(cat="proof", text="18 Coq theorems: the precondition `between_calls` is itself a theorem for every reachable world (bookkeeping_invariant: counter balanced on every Ok/Err exit); each rejected host call (cannot-continue, out-of-range choice, undeclared variable, unknown/blank function, bad argument, unknown path, absent flow/observer, double bind, async guard) returns an error and the world is literally unchanged, for the API model run with switches regenerated from the sources; engine model tied by transcript correspondence; lock-step oracle with every kind of invalid call injected at every position of explored histories, comparing later behaviour and the final save",
              note="engine model hand-written (Engine/*.v), tied by correspondence on the same cases; theorems assume the story's externals were validated (after the first continue) for the cannot-continue case"),
 }
 
